@@ -56,6 +56,16 @@ def mk_seq(rng, desc, length):
         nan_row = [math.nan] * len(desc["inputs"])
         mid = rng.choice([[["restart"]], [["copy"], ["restart"]], [["restart"], ["copy"]]])
         return [["set", r1], ["process"]] + mid + [["set", nan_row], ["process"], ["set", r1], ["process"]]
+    if rng.random() < 0.2:
+        # scenario: process, then edit a component IN PLACE (height of an input / output term, rule weight, coefficient) and
+        # process again WITHOUT setting the inputs in between: the result must be that of the edited engine (nothing
+        # computed in the first step may be reused)
+        r1 = G.gen_rows(rng, desc, 1, special=False)[0]
+        ops = [["set", r1], ["process"]]
+        for _ in range(rng.choice([1, 2, 3])):
+            kind = rng.choice(["params", "params", "height", "weight", "coeff"])
+            ops += [["edit", kind, rng.randrange(1 << 20), rng.choice([0.5, 0.25, 0.75])], ["process"]]
+        return ops
     ops = []
     n_in = len(desc["inputs"])
     for _ in range(length):
@@ -73,7 +83,7 @@ def mk_seq(rng, desc, length):
         elif r < 0.88:
             ops.append(["badrule", rng.randrange(1 << 20)])
         elif r < 0.93:
-            kind = rng.choice(["height", "weight", "coeff"])
+            kind = rng.choice(["height", "weight", "coeff", "params"])
             ops.append(["edit", kind, rng.randrange(1 << 20), rng.choice([0.5, 0.25, 0.75, 1.0])])
         else:
             ops.append(["toggle", rng.choice(["rule", "block", "input", "output"]), rng.randrange(1 << 20)])
@@ -94,6 +104,25 @@ def apply_edit(e, d, op):
         d[grp][vi]["terms"][ti]["height"] = val
         var = (e.input_variables if grp == "inputs" else e.output_variables)[vi]
         var.terms[ti].height = val
+        return True
+    if kind == "params":
+        # new parameters (same class, valid for the variable's range) assigned IN PLACE to the term object of an input
+        # variable: the term object stays the same, its membership function changes
+        import inspect
+        import random as _random
+        cands = [(vi, ti) for vi, v in enumerate(d["inputs"]) for ti, t in enumerate(v["terms"]) if t["kind"] == "shape"]
+        if not cands:
+            return False
+        vi, ti = cands[pick % len(cands)]
+        v, t = d["inputs"][vi], d["inputs"][vi]["terms"][ti]
+        cls, ps, _h = G.shape_term(_random.Random(pick), t["name"], v["min"], v["max"], bool(d.get("exact")), classes=[t["cls"]])
+        names = [n for n in inspect.signature(getattr(fl, cls).__init__).parameters if n not in ("self", "name", "height")]
+        if len(names) != len(ps):
+            return False
+        t["params"] = list(ps)
+        obj = e.input_variables[vi].terms[ti]
+        for n, x in zip(names, ps):
+            setattr(obj, n, x)
         return True
     if kind == "wtype":
         # a weighted output over monotonic terms, left at Automatic (Tsukamoto inferred): fix the kind to TakagiSugeno
